@@ -4,7 +4,7 @@
 (* {"e":"Eval","mode":..,"pre":[[word..]..],"argv":[word..],"out":"ok"|"err",..,"dest":[..],"tag":{..}} *)
 (* Eval is accepted iff the logged outcome class and (on success) every destination value *)
 (* equal what the specification computes for the same configuration and words.            *)
-EXTENDS ArgKey, Json, IOUtils
+EXTENDS ArgKey, ArgSplit, Json, IOUtils
 VARIABLES l, cfg
 Log == ndJsonDeserialize(IOEnv.TRACE)
 Ev == Log[l]
@@ -16,14 +16,29 @@ EffCfg == IF ~Lenient THEN cfg
           ELSE [cfg EXCEPT !.args = [k \in 1..Len(cfg.args) |->
                    IF DefineRes(cfg)[k] = "refused" THEN [cfg.args[k] EXCEPT !.s = 0, !.l = <<>>, !.pos = FALSE, !.mand = FALSE]
                    ELSE cfg.args[k]]]
+\* words delivered before argv: the effective lines of the argument file (not empty, not starting
+\* with '#'), each split like a command string, then the environment variable (if not empty)
+RECURSIVE TextLines(_)
+TextLines(t) == IF Len(t) = 0 THEN <<>>
+                ELSE LET p == PosOf(t, 10) IN
+                     IF p = 0 THEN <<t>> ELSE <<SubSeq(t, 1, p - 1)>> \o TextLines(Tail2(t, p + 1))
+EffLines(t) == SelectSeq(TextLines(t), LAMBDA ln : Len(ln) > 0 /\ ln[1] # 35)
+PreOf(ev) == (IF ev.presrc \in {"file", "both"} THEN [k \in 1..Len(EffLines(ev.filetext)) |-> SplitStr(EffLines(ev.filetext)[k])] ELSE <<>>)
+             \o (IF ev.presrc \in {"env", "both"} /\ Len(ev.envstr) > 0 THEN <<SplitStr(ev.envstr)>> ELSE <<>>)
 EvalMatches ==
-   LET r == Eval(EffCfg, Ev.pre, Ev.argv) IN
+   IF Ev.tag.k = "raw" THEN Ev.out \in {"ok", "err"} ELSE
+   LET r == Eval(EffCfg, PreOf(Ev), IF Ev.mode = "string" THEN SplitStr(Ev.cmd) ELSE Ev.argv) IN
+   \/ Ev.tag.k = "raw" /\ Ev.out \in {"ok", "err"}      \* C04: arbitrary bytes: only "returns or throws a std::exception"
    \/ Outcome(r) = "undef" /\ Ev.out \in {"ok", "err"}
    \/ Outcome(r) = "err" /\ Ev.out = "err"
    \/ Outcome(r) = "ok" /\ Ev.out = "ok" /\ Len(Ev.dest) = NArgs(cfg) /\ DestEq(r)
 TNext == /\ l <= Len(Log) /\ l' = l + 1
          /\ \/ Ev.e = "Reset" /\ cfg' = Ev.cfg
             \/ Ev.e = "Eval" /\ EvalMatches /\ UNCHANGED cfg
+            \/ Ev.e = "Split" /\ UNCHANGED cfg          \* make_arg_array: words, argc, argv[argc] = NULL, program name
+               /\ Ev.out = "ok" /\ Ev.words = SplitStr(Ev.cmd)
+               /\ Ev.argc = Len(Ev.words) + 1 /\ Ev.nullterm
+               /\ Ev.prog0 = (IF Ev.withprog THEN Ev.prog ELSE <<112, 114, 111, 103, 114, 97, 109, 110, 97, 109, 101>>)
             \/ Ev.e = "Define" /\ UNCHANGED cfg
                /\ LET d == DefineRes(cfg)
                       firstRef == IF \E k \in 1..Len(d) : d[k] = "refused" THEN CHOOSE k \in 1..Len(d) : d[k] = "refused" /\ \A j \in 1..(k-1) : d[j] = "ok" ELSE Len(d) + 1
